@@ -161,8 +161,8 @@ def update_statements_for_language(language):
     language : str
         "c" or "c++"
     """
-    update_for_language(fc_statements, language)
-    update_stmt_tree(fc_statements, cf_tree, default_stmts)
+    stmts = update_for_language(fc_statements, language)
+    update_stmt_tree(stmts, cf_tree, default_stmts)
     
 
 def update_for_language(stmts, lang):
@@ -180,8 +180,14 @@ def update_for_language(stmts, lang):
 
     For lang==c,
       foo_bar["declare"] = foo_bar["c_declare"]
+
+    The table itself is not changed (it is shared by every library
+    processed in this process); a new list of new dictionaries is returned.
     """
+    new_stmts = []
     for item in stmts:
+        item = dict(item)
+        new_stmts.append(item)
         for clause in [
                 "impl_header",
                 "cxx_local_var",
@@ -196,6 +202,7 @@ def update_for_language(stmts, lang):
             if specific in item:
                 # XXX - maybe make sure clause does not already exist.
                 item[clause] = item[specific]
+    return new_stmts
 
 
 def compute_stmt_permutations(out, parts):
